@@ -69,9 +69,9 @@ ASSUMPTIONS = [
 QUICK_BUDGET_S = 240
 THOROUGH_BUDGET_S = 2400
 
-_RT_TOL = 1e-11       # x kappa x max|x|
+_RT_TOL = 1e-12       # x kappa x max|x|  (observed <= 1.2e-14 x kappa)
 _EN_TOL = 1e-12       # relative
-_FILT_TOL = 1e-11     # x kappa (ZF) or x cond(H^H H + s2 I) (MMSE)
+_FILT_TOL = 1e-12     # x kappa (ZF) or x cond(H^H H + s2 I) (MMSE)
 
 _MATRIX_SCHEMES = ("Blast", "SVDMimo", "GMDMimo")
 _NOISE_SCHEMES = ("Blast", "MRC", "GMDMimo")
@@ -254,7 +254,9 @@ _SCHEME_POOL = ["Blast", "Blast", "SVDMimo", "SVDMimo", "SVDMimo", "GMDMimo",
 def _roundtrip_cases(draw, tier):
     thorough = tier == "thorough"
     nmax = 8 if thorough else 6
-    emax = 6.0 if thorough else 3.0
+    # condition number bound 1e3 in most quick cases, 1e5 in a quarter of
+    # them (an O(cond^2 eps) method is only visible there), 1e6 in thorough
+    emax = 6.0 if thorough else draw(st.sampled_from([3.0, 3.0, 3.0, 5.0]))
     scheme = draw(st.sampled_from(_SCHEME_POOL))
     form = "2d"
     if scheme in _MATRIX_SCHEMES:
@@ -289,7 +291,7 @@ def _roundtrip_cases(draw, tier):
 def _filter_cases(draw, tier):
     thorough = tier == "thorough"
     nmax = 8 if thorough else 6
-    emax = 6.0 if thorough else 3.0
+    emax = 6.0 if thorough else draw(st.sampled_from([3.0, 3.0, 3.0, 5.0]))
     Nt = draw(st.integers(1, nmax))
     Nr = Nt + (draw(st.integers(1, 3)) if draw(st.booleans()) else 0)
     return dict(part="filters", chan=draw(cond_matrix(Nr, Nt, emax)),
